@@ -88,6 +88,12 @@ def linearise(e, P, out, coef, w):
                 if a.is_const():
                     linearise(b, P, out, coef * a.val, w)
                     return
+        if e.op == "mul" and P is not None:
+            # (y.next_multiple_of(P) / P) * P  (how `y.div_ceil(P) * P` is modelled): the division is exact, the product is the rounded value
+            for a, b in ((e.args[0], e.args[1]), (e.args[1], e.args[0])):
+                if b == P and isinstance(a, E) and a.op == "div" and a.args[1] == P and _is_page_multiple(a.args[0], P, w):
+                    linearise(a.args[0], P, out, coef, w)
+                    return
         if e.op == "shl" and e.args[1].is_const():
             linearise(e.args[0], P, out, coef * (1 << e.args[1].val), w)
             return
@@ -100,23 +106,23 @@ def linearise(e, P, out, coef, w):
                         linearise(y, P, out, coef, w)
                         if _is_page_multiple(y, P, w):
                             return          # rounding up what is already a multiple of the page size adds nothing
-                        key = ("up", _nf(y, w))
+                        key = ("up", _nf(y, w, P))
                         out.slacks[key] = out.slacks.get(key, 0) + coef
                     else:
                         linearise(x, P, out, coef, w)
-                        key = ("down", _nf(x, w))
+                        key = ("down", _nf(x, w, P))
                         out.slacks[key] = out.slacks.get(key, 0) - coef
                     return
     # x % c and x.next_multiple_of(c) with constant c: slacks in [0, c-1] (expressed against the page slack range when c <= PAGE_MIN)
     if e.op == "rem" and P is not None and e.args[1] == P and e.args[0].op == "sub" and e.args[0].args[0] == P and \
             e.args[0].args[1].op == "rem" and e.args[0].args[1].args[1] == P:
         # (P - y % P) % P = align_up(y) - y: the slack of rounding y up (how next_multiple_of is modelled)
-        key = ("up", _nf(e.args[0].args[1].args[0], w))
+        key = ("up", _nf(e.args[0].args[1].args[0], w, P))
         out.slacks[key] = out.slacks.get(key, 0) + coef
         return
     if e.op == "rem" and P is not None and e.args[1] == P:
         # x % P = x - align_down(x): the same slack as the align_down of x, with the opposite sign
-        key = ("down", _nf(e.args[0], w))
+        key = ("down", _nf(e.args[0], w, P))
         out.slacks[key] = out.slacks.get(key, 0) + coef
         return
     if e.op == "rem" and e.args[1].is_const() and 0 < e.args[1].val <= PAGE_MIN:
@@ -141,18 +147,26 @@ def _is_page_multiple(y, P, w):
             x_ = t.args[0].args[1].args[0]
             tx, cx = affine(x_, w)
             others = {a: b for a, b in rest.items() if a != t}
-            if {a: to_signed(b, w) for a, b in others.items()} == {a: to_signed(b, w) for a, b in tx.items() if a != P} and to_signed(cx, w) == to_signed(c, w):
+            if {a: to_signed(b, w) for a, b in _mod_page(others, P).items()} == {a: to_signed(b, w) for a, b in _mod_page(tx, P).items()} \
+                    and to_signed(cx, w) == to_signed(c, w):
                 return True
-    if to_signed(c, w) != 0 or len(rest) != 1:
+    if to_signed(c, w) != 0 or not rest:
         return False
-    (t, k), = rest.items()
-    if to_signed(k, w) != 1 or not isinstance(t, E) or t.op != "and":
-        return False
-    return any(_is_page_mask(m, P) for m in t.args)
+    # every remaining term is a multiple of P: `.. & !(P-1)`, or a product with P as a factor (`y.div_ceil(P) * P`)
+    return all(isinstance(t, E) and ((t.op == "and" and any(_is_page_mask(m, P) for m in t.args)) or (t.op == "mul" and any(m == P for m in t.args)))
+               for t in rest)
 
 
-def _nf(x, w):
+def _mod_page(terms, P):
+    """Drop the terms that are multiples of the page size (P itself, `.. & !(P-1)`): the slack of rounding y up or down to a page
+    boundary depends on y modulo P only."""
+    return {t: k for t, k in terms.items() if t != P and not (isinstance(t, E) and t.op == "and" and any(_is_page_mask(m, P) for m in t.args))}
+
+
+def _nf(x, w, P=None):
     t, c = affine(x, w)
+    if P is not None:
+        t = _mod_page(t, P)
     return (frozenset(t.items()), c)
 
 
